@@ -277,7 +277,22 @@ func VerifCheck_wellformed() {
 		verifFail("error", err.Error())
 	}
 	cnt := 0
+	var spans []int // byte spans of the matches, from ByteRange, minus empties adjacent to the preceding reported match
+	prevEnd := -1
 	for m != nil {
+		bi0, bl0 := m.ByteRange()
+		adj := m.RuneIndex
+		if re.RightToLeft() {
+			adj = m.RuneIndex + m.RuneLength
+		}
+		if !(m.RuneLength == 0 && adj == prevEnd) {
+			spans = append(spans, bi0, bi0+bl0)
+			if re.RightToLeft() {
+				prevEnd = m.RuneIndex
+			} else {
+				prevEnd = m.RuneIndex + m.RuneLength
+			}
+		}
 		cnt++
 		if cnt > len(rs)+2 {
 			verifFail("iteration-does-not-terminate", "")
@@ -320,6 +335,18 @@ func VerifCheck_wellformed() {
 			verifFail("error", err.Error())
 		}
 	}
+	// the byte indexes of the find-all call are the same byte spans
+	all, err := re.FindAllStringIndex(s, -1)
+	if err != nil {
+		verifFail("error", err.Error())
+	}
+	var flat []int
+	for _, p := range all {
+		flat = append(flat, p...)
+	}
+	verifNoteInts("FindAllStringIndex", flat)
+	verifNoteInts("ByteRange-spans", spans)
+	verifAssert("FindAllStringIndex==ByteRange-spans", verifEqInts(flat, spans))
 	verifReach("end")
 }
 
